@@ -1,0 +1,32 @@
+//go:build verif
+
+// Contracts for package routingtable (comment-only; read by /verif/govc, never compiled into olric).
+
+package routingtable
+
+// Structural invariant of a started RoutingTable: both partition tables are complete and sized by the
+// configured partition count (established in New; assumed by the handlers, see DESIGN.md C16).
+//@ pred (r *RoutingTable) parts() = r.primary.inv() && r.backup.inv() && r.primary.count == r.config.PartitionCount && r.backup.count == r.config.PartitionCount
+
+//@ func (r *RoutingTable) lengthOfPartCommandHandler(conn redcon.Conn, cmd redcon.Command)
+//@   props C16
+//@   flag termination
+//@   flag wired 2
+//@   requires #args: len(cmd.Args) >= 1
+//@   requires #parts: r.parts()
+
+//@ func (r *RoutingTable) verifyRoutingTable(id uint64, table map[uint64]*route) error
+//@   props C16 C13
+//@   flag termination
+//@   flag wired 2
+//@   requires #table: table != nil
+//@   ensures  #valid_ids: result == nil ==> forall k uint64 :: k in table ==> (k < r.config.PartitionCount && table[k] != nil)
+//@   ensures  #count: result == nil ==> r.config.PartitionCount == len(table)
+//@   loop 0 invariant #checked: forall k uint64 :: visited(k) ==> (k < r.config.PartitionCount && table[k] != nil)
+
+//@ func (r *RoutingTable) updateRoutingCommandHandler(conn redcon.Conn, cmd redcon.Command)
+//@   props C16 C13
+//@   flag termination
+//@   flag wired 2
+//@   requires #args: len(cmd.Args) >= 1
+//@   requires #parts: r.parts()
